@@ -132,6 +132,7 @@ pub fn run(ctx: &Ctx) -> i32 {
         n: if ctx.quick() { 48 } else { 1000 },
     };
     acc.pool(&typing, "c04lsp", true);
+    acc.witnesses();
     if !ctx.quick() {
         acc.miri(40, 60);
         acc.asan(&["c04cli", "c04lsp"]);
